@@ -713,6 +713,30 @@ fn extract<'tcx>(tcx: TyCtxt<'tcx>) -> J {
         }
         // is it inside a #[cfg(test)] module? -> path contains "::tests::" typically; the lib check
         // build does not compile tests, so nothing to do.
+        // generics + predicates (own and inherited) for bound-aware trait fan-out
+        {
+            let mut gp = vec![];
+            let mut pj = vec![];
+            let mut chain = vec![];
+            let mut cur = Some(did);
+            while let Some(d) = cur {
+                chain.push(d);
+                cur = tcx.generics_of(d).parent;
+            }
+            // parent parameters first: the order of the generic arguments at call sites
+            for d in chain.iter().rev() {
+                let g = tcx.generics_of(*d);
+                for p in g.own_params.iter() {
+                    gp.push(J::s(p.name.to_string()));
+                }
+                let preds = tcx.predicates_of(*d);
+                for (p, _) in preds.predicates.iter() {
+                    pj.push(J::s(format!("{}", p)));
+                }
+            }
+            f.push(("generics", J::arr(gp)));
+            f.push(("preds", J::arr(pj)));
+        }
         f.push(("argc", J::i(body.arg_count as i128)));
         let mut locals = vec![];
         for (_l, d) in body.local_decls.iter_enumerated() {
